@@ -683,24 +683,21 @@ Proof.
   pose proof (proj1 (Forall_forall _ _) Htk f Hf) as H3. auto.
 Qed.
 
-(** all outcomes of the derived parser on a printed line: the value itself, or the command's own rejection (or the enum
-    check's) -- never another value, never an extraction error *)
+(** all outcomes of the derived parser on a printed line: the value itself, or the command's own rejection -- never
+    another value, never an extraction error *)
 Theorem roundtrip_parse_outcomes d bin vs argv :
   opt_struct d -> Forall takes_ok (fields_of (d_nodes d)) -> ok_nodes (d_nodes d) vs ->
   valid (with_bin (derive_cmd d) bin) = true -> print d vs = Some argv ->
   match derived_parse d (bin :: argv) with
   | PValue vs' => vs' = vs
-  | PError k => (exists e, parse_top (derive_cmd d) (bin :: argv) = OErr e /\ e_kind e = k)
-                \/ (exists m, parse_top (derive_cmd d) (bin :: argv) = OOk m /\ enum_ok_nodes (d_nodes d) m = false)
+  | PError k => exists e, parse_top (derive_cmd d) (bin :: argv) = OErr e /\ e_kind e = k
   | PPanic _ | PInvalid => exists o, parse_top (derive_cmd d) (bin :: argv) = o /\ forall m, o <> OOk m
   end.
 Proof.
-  intros Hs Htk Hok Hv Hp. unfold derived_parse, cmd_parse.
+  intros Hs Htk Hok Hv Hp. unfold derived_parse.
   destruct (parse_top (derive_cmd d) (bin :: argv)) as [m|e|s| |] eqn:E; cbn [of_outcome].
-  - destruct (enum_ok_nodes (d_nodes d) m) eqn:Eo; cbn [of_outcome].
-    + rewrite (roundtrip_parse_sound_ok d bin vs argv m Hs Htk Hok Hv Hp E). reflexivity.
-    + right. exists m. auto.
-  - left. exists e. auto.
+  - rewrite (roundtrip_parse_sound_ok d bin vs argv m Hs Htk Hok Hv Hp E). reflexivity.
+  - exists e. auto.
   - eexists. split; [reflexivity|]. discriminate.
   - eexists. split; [reflexivity|]. discriminate.
   - eexists. split; [reflexivity|]. discriminate.
